@@ -151,6 +151,25 @@ pub fn with_source<R>(v: &Value, den_default: f32, f: &mut dyn FnMut(&Source) ->
             );
             f(&s)
         }
+        // sources as recorded by the API tracer (src/verif_trace.rs): the enum's own fields
+        "linear_raw" => f(&Source::LinearGradient(Gradient { stops: parse_stops(&v["stops"]) }, parse_spread(&v["spread"]), parse_transform(v))),
+        "radial_raw" => f(&Source::RadialGradient(Gradient { stops: parse_stops(&v["stops"]) }, parse_spread(&v["spread"]), parse_transform(v))),
+        "two_circle_raw" => f(&Source::TwoCircleRadialGradient(
+            Gradient { stops: parse_stops(&v["stops"]) },
+            parse_spread(&v["spread"]),
+            Point::new(num(&v["c1"][0]), num(&v["c1"][1])),
+            num(&v["r1"]),
+            Point::new(num(&v["c2"][0]), num(&v["c2"][1])),
+            num(&v["r2"]),
+            parse_transform(v),
+        )),
+        "sweep_raw" => f(&Source::SweepGradient(
+            Gradient { stops: parse_stops(&v["stops"]) },
+            parse_spread(&v["spread"]),
+            num(&v["start_angle"]),
+            num(&v["end_angle"]),
+            parse_transform(v),
+        )),
         k => panic!("bad source kind {}", k),
     }
 }
@@ -374,6 +393,12 @@ pub fn run(sc: &Value) -> Value {
     let mut outcome = "ok".to_string();
     let mut finished: Vec<Tgt> = Vec::new();
 
+    // scenarios converted from recorded executions (API tracer): the pixels the recorded run
+    // had after each call; the replay must reproduce them
+    let recorded = sc.get("recorded").and_then(|r| r.as_array());
+    let mut rec_checked = 0usize;
+    let mut rec_mismatch: Vec<usize> = Vec::new();
+
     let calls = sc["calls"].as_array().unwrap();
     'outer: for (ci, c) in calls.iter().enumerate() {
         let op = c["op"].as_str().unwrap();
@@ -464,6 +489,16 @@ pub fn run(sc: &Value) -> Value {
             }
             // unchanged pixels are not repeated (the trace specification then keeps its own)
             let now = t.dt.get_data().to_vec();
+            if ti == 0 {
+                if let Some(rec) = recorded.and_then(|r| r.get(ci)) {
+                    if rec.is_array() {
+                        rec_checked += 1;
+                        if unpix(rec) != now {
+                            rec_mismatch.push(ci + 1);
+                        }
+                    }
+                }
+            }
             if now != t.last {
                 ev.insert("after".into(), pix(&now));
                 t.last = now;
@@ -537,7 +572,7 @@ pub fn run(sc: &Value) -> Value {
         .map(|t| json!({"tgt": t.id, "from": t.from, "setup": t.setup, "init": pix(&t.init), "events": t.events}))
         .collect();
     json!({"id": sc["id"], "fam": "canvas", "w": w, "h": h, "den": sc.get("den").cloned().unwrap_or(json!(1)),
-           "outcome": outcome, "targets": targets})
+           "outcome": outcome, "targets": targets, "rec_checked": rec_checked, "rec_mismatch": rec_mismatch})
 }
 
 fn init_pixels(sc: &Value, n: usize) -> Vec<u32> {
